@@ -1,9 +1,12 @@
-(* Correspondence checker for C19: descriptor observations after every event against the ledger. *)
+(* Correspondence checker for C19: descriptor observations after every event against the ledger,
+   for one reader and for load_files over several locations. *)
 From PdV Require Export Common.
 From PdV.Model Require Export Lifecycle.
 
-(* a case: the reader, and per event the number of descriptors observed open on the source after it *)
-Definition case : Type := reader * list (gevent * nat).
+(* a case: the reader(s), and per event the number of descriptors observed open on the source(s) after it *)
+Inductive case :=
+| KOne (r : reader) (es : list (gevent * nat))
+| KMany (rs : list reader) (es : list (gevent * nat)).
 
 Fixpoint replay (r : reader) (s : gstate) (l : ledger) (es : list (gevent * nat)) : bool :=
   match es with
@@ -12,4 +15,17 @@ Fixpoint replay (r : reader) (s : gstate) (l : ledger) (es : list (gevent * nat)
       let '(s', l', _) := gstep r s l e in
       Nat.eqb (held l') n && replay r s' l' rest
   end.
-Definition check (c : case) : bool := let (r, es) := c in replay r Fresh l0 es.
+
+Fixpoint lreplay (rs : list reader) (s : gstate) (l : ledger) (es : list (gevent * nat)) : bool :=
+  match es with
+  | [] => true
+  | (e, n) :: rest =>
+      let '(rs', s', l', _) := lstep rs s l e in
+      Nat.eqb (held l') n && lreplay rs' s' l' rest
+  end.
+
+Definition check (c : case) : bool :=
+  match c with
+  | KOne r es => replay r Fresh l0 es
+  | KMany rs es => lreplay rs Fresh l0 es
+  end.
